@@ -34,7 +34,7 @@ A = 'circus.arbiter:Arbiter.'
 
 
 def check(run, ctx):
-    run.each(ctx, [r1, r2, r3, r4, r5, r6])
+    run.each(ctx, [r1, r2, r3, r4, r5, r6, r7])
 
 
 def _commands(ctx):
@@ -447,3 +447,10 @@ def r6(run, ctx):
             if dotted(c.func) == 'getattr' and len(c.args) == 2:
                 run.fail('R6', ts, n.ast, '2-argument getattr raises AttributeError for an unknown '
                          'name; the enclosing handler and the validators expect KeyError/ValueError')
+
+
+def r7(run, ctx):
+    from rules import c10
+    run.share(ctx, c10.r1, 'R1', 'R7', 'a request refused as conflicting leaves the exclusive '
+              'slot untouched (shared with C10 R1): otherwise the refusal itself changes the '
+              'daemon and the next conflicting request is admitted')
